@@ -398,11 +398,14 @@ static void iauth_xquery_x_reply(const char service[], const char routing[],
     cli->ref_mask &= ~(1u << ii);
     log_message(iauth_xquery_log, LOG_DEBUG,
         "%s-%s: ref_mask=%#x", routing, srv->name, cli->ref_mask);
-    if (--srv->refs == 0)
-        iauth_xquery_unref(ii);
+    --srv->refs;
     if (cli->ref_mask == 0)
         --req->soft_holds;
     iauth_check_request(req);
+
+    /* Only now may the slot of a service that is no longer configured
+     * go: the check above may have asked about it (xreply_ok). */
+    iauth_xquery_unref(ii);
 }
 
 static void iauth_xquery_x_unlinked(const char service[], const char routing[],
